@@ -215,6 +215,16 @@ def rule_e(ctx, cr):
     ctx.check(len(sp) == 1 and all(f.dominates(sp[0].bb, c.bb) for c in rep), "C17.e",
               "Val::from/prefix-before-exponent-rewrite", f.span,
               "the & prefix is examined before D is rewritten to E")
+    dbl = [b for b, i, st in f.aggregates("mach::val::Val", "Double")]
+    fin = [b for b in dbl
+           if any(c[0] == "eq" and "f64>::is_finite" in str(c[1]).replace("impl ", "") and c[2] is True
+                  for c in f.conds_at(b))
+           or any(c[0] == "eq" and "is_finite" in str(c[1]) and c[2] is True for c in f.conds_at(b))]
+    ctx.check(bool(dbl) and len(fin) == len(dbl), "C17.e", "Val::from/finite-only", f.span,
+              "a parsed float becomes a number only when it is finite",
+              "the result of str::parse::<f64>() becomes a number without an is_finite test: "
+              "Rust's parser accepts the words inf, infinity and nan (and overflows 1e400 to "
+              "inf), so INPUT and VAL take them as numbers instead of REDO FROM START / 0")
     v = cr.need_fn("mach::function::Function::val")
     ctx.check(bool(v.calls_to(f.path)), "C17.e", "VAL/shares-conversion", v.span,
               "VAL uses the same conversion")
